@@ -9,7 +9,7 @@ abstract form; an alias guard re-digests the source trees of the last edits.
 def run(ctx):
     quick = ctx.tier == "quick"
     shards = 16
-    count = 20 if quick else 320
+    count = 20 if quick else 600
     steps = 60 if quick else 120
     ctx.rule = ("%d generated edit histories x %d steps in the samplers' grammar (SMC placement with dict hop, data-point "
                 "move, prune-regraft, subtree extraction/re-attachment with carried outliers, relabel, copy, dict and "
